@@ -56,7 +56,8 @@ def faultStr : Fault → String
 def specCheck (h : Hist) (s sPrev : List ObjRec) (op : Op ObjRec) (prevDump : String) (prev : Option StepRes)
     (r : StepRes) : Option String :=
   let t : Tree ObjRec := { minC := h.minC, maxC := h.maxC, root := r.tree, size := r.size, height := r.depth }
-  if !wfNode h.maxC r.depth r.tree then some "tree-not-well-formed(balance/level/leaf-flag/envelope/fan-out)"
+  if !wfNode h.maxC r.depth r.tree then
+    some s!"tree-not-well-formed(Depth={r.depth}):{(wfDiag h.maxC r.depth r.tree).getD "?"}"
   else if r.size != t.abs.length then some s!"Size={r.size}-but-{t.abs.length}-objects-stored"
   else if !(t.abs.isPerm s) then some s!"stored-objects-differ-from-history:stored=[{idsStr t.abs}]-expected=[{idsStr s}]"
   else
